@@ -322,6 +322,15 @@ func (s *Sys) U(ex *Exchange, reported time.Time) *Fail {
 	return s.Invariants(post)
 }
 
+// OldestActivity returns the queue value of the store's least recently active client.
+func (s *Sys) OldestActivity() (ntp.Time64, bool) {
+	snap := server.VerifSnapshotTSS()
+	if len(snap.Queue) == 0 {
+		return ntp.Time64{}, false
+	}
+	return snap.Items[find(snap, snap.Queue[0])].Qval, true
+}
+
 // Eviction judges the capacity behaviour of one H step (C07).
 func Eviction(pre, post server.VerifTSSSnapshot, c string, rx64 ntp.Time64, cap int) *Fail {
 	if len(post.Items) > cap {
